@@ -49,7 +49,9 @@ fn text_ok(s: &str, path: bool) -> bool {
         return false;
     }
     // ':' (a port) only in hosts: in a path it would be subject to URL normalisation
-    s.chars().all(|c| c.is_ascii_alphanumeric() || matches!(c, '/' | '-' | '_' | '.' | '@') || (c == ':' && !path))
+    // '(' ')' '+' '$' '*' (path only): regex meta characters that URL normalisation leaves alone; `regex::escape` turns each
+    // into a two-character escape, which the prefix scanner of the radix tree must step over as ONE literal (seed r8a-1)
+    s.chars().all(|c| c.is_ascii_alphanumeric() || matches!(c, '/' | '-' | '_' | '.' | '@') || (c == ':' && !path) || (path && matches!(c, '(' | ')' | '+' | '$' | '*')))
 }
 
 fn plain_ok(s: &str) -> bool {
@@ -494,10 +496,13 @@ const REQ_HOSTS: &[&str] = &[
 const PATHS: &[&str] = &[
     "/", "/a", "/A", "/a/b", "/a/@d", "/a/@l", "/a/@s", "/a/@s/c", "/a/@d/c", "/@x", "/a@x", "/b/@d-@l", "/a/b/c", "/a/1", "/a.b", "/x_y", "/A/@d", "/A/B", "/Ab@x",
     "/B/@d-@l", "/a/@s/C",
+    // literal regex meta characters in front of / between / after markers (escaped by `regex::escape`; seed r8a-1)
+    "/w/f_(b)/@s/e", "/w/f_(b)/@s/h", "/w/f_(b)/@d", "/a(1)@d", "/a(1)@d/c", "/a)/@s/(c", "/a)/@s/(d", "/a+b/@d$", "/a+b/@d*", "/w/f_(b)/@s",
 ];
 const REQ_PATHS: &[&str] = &[
     "/", "/a", "/A", "/a/b", "/a/1", "/a/12", "/a/x", "/a/B", "/a/1/c", "/a/b/c", "/b/1-x", "/b/1-", "/a.b", "/x_y", "/zzz", "/a/", "/A/1", "/A/B", "/AB", "/abq",
     "/B/1-x", "/a/x/C",
+    "/w/f_(b)/q/e", "/w/f_(b)/q/h", "/w/f_(b)/12", "/a(1)7", "/a(1)7/c", "/a)/z/(c", "/a)/z/(d", "/a+b/3$", "/a+b/3*", "/w/f_(b)/q", "/w/f_b/q/e",
 ];
 // method names are compared as they are (no case folding anywhere)
 const METHODS: &[&str] = &["GET", "POST", "PUT", "get", "DELETE", "Get", "post", "gEt"];
